@@ -220,3 +220,52 @@ func verifLTXNames(db *DB) []string {
 }
 
 func verifSamePage(a, b []byte) bool { return bytes.Equal(a, b) }
+
+// verifJournalHeader builds one sector-sized (512) rollback-journal header.
+func verifJournalHeader(nRec int32, nonce, dbSize uint32) []byte {
+	h := make([]byte, 512)
+	copy(h, SQLITE_JOURNAL_HEADER_STRING)
+	binary.BigEndian.PutUint32(h[8:], uint32(nRec))
+	binary.BigEndian.PutUint32(h[12:], nonce)
+	binary.BigEndian.PutUint32(h[16:], dbSize)
+	binary.BigEndian.PutUint32(h[20:], 512)
+	binary.BigEndian.PutUint32(h[24:], verifP)
+	return h
+}
+
+// verifJournalSum is SQLite's journal record checksum (from the file-format text).
+func verifJournalSum(data []byte, nonce uint32) uint32 {
+	sum := nonce
+	for i := len(data) - 200; i > 0; i -= 200 {
+		sum += uint32(data[i])
+	}
+	return sum
+}
+
+// verifJournalRecord builds one journal record for page pgno with its original content.
+func verifJournalRecord(pgno uint32, orig []byte, nonce uint32) []byte {
+	r := make([]byte, 4, 4+len(orig)+4)
+	binary.BigEndian.PutUint32(r, pgno)
+	r = append(r, orig...)
+	var c [4]byte
+	binary.BigEndian.PutUint32(c[:], verifJournalSum(orig, nonce))
+	return append(r, c[:]...)
+}
+
+// VerifReplicaWorld is used by harnesses in other packages: a replica store
+// with database "db" of n0 pages at position (41, checksum).
+func VerifReplicaWorld(n0 int, wal bool) (*Store, *DB, func() []int) {
+	w, _ := verifC01Replica(n0, wal)
+	return w.store, w.db, func() []int { return w.exits }
+}
+
+// VerifPrimaryWorld: a primary store with database "db".
+func VerifPrimaryWorld(n0 int, wal bool) (*Store, *DB, func() []int) {
+	w := verifNewStore(true)
+	w.verifOpenDB(verifImage("img0", n0, wal), 41)
+	return w.store, w.db, func() []int { return w.exits }
+}
+
+// VerifTreeDigest / VerifSameTree expose the directory comparison helpers.
+func VerifTreeDigest(dir string) map[string][]byte { return verifTreeDigest(dir) }
+func VerifSameTree(a, b map[string][]byte) bool   { return verifSameTree(a, b) }
